@@ -71,6 +71,17 @@ type Ev struct {
 	// see P / EC: it is told "the handler / the node / the store fails".
 	P  int `json:"p,omitempty"`
 	EC int `json:"ec,omitempty"`
+	// Panic (rpcfail / failing handler / failing store events): the call does not return an error, it
+	// PANICS (a nil dereference or an index out of range inside the handler or the node client on an
+	// unexpected answer).  For handler 0 the panic is raised inside the P-th node read of the
+	// repository's real deposit event handler, i.e. inside its HandleEvents.  What happens next is
+	// observed (Result.Died / Result.Survived): either the panic escapes ListenToEvents - the process
+	// is dead, the next lifetime starts from the block store (the model's Crash) - or somebody
+	// recovered and the listener goes on, and then the call counts as failed (the model's
+	// Handler false / RpcFail / Store false).
+	Panic bool `json:"panic,omitempty"`
+
+	idx, out int // where the event sits in the script / which Out recorded its call (handler events)
 }
 
 type Cfg struct {
@@ -152,6 +163,104 @@ type Env struct {
 
 	Deposits []Dep
 	groups   int // message groups the real handlers must have sent
+
+	// scripted panics: the one raised last and not yet known to have killed the listener or not
+	direct   bool // see raise
+	guarded  bool
+	lastPop  int // index (into evs) of the event pop returned last
+	pending  *pendingPanic
+	Died     []int // indices of the panic events that killed the listener (or app.Run)
+	Survived []int // indices of the panic events after which the same listener made another call
+}
+
+type pendingPanic struct {
+	ev  int // index of the event
+	out int // index of the Out recorded for the panicking call, -1 if none
+}
+
+// ScriptedPanic is the value the fakes panic with.
+type ScriptedPanic struct{}
+
+func (ScriptedPanic) Error() string { return "scripted panic" }
+
+// raise records that event ev (whose call was recorded as Outs[out]) panics now, and panics.
+//
+// sygma-core's SubstrateListener runs its loop in a goroutine of its own, without recover(): a panic
+// that reaches its frames ends the process and no recover() of the harness can sit above it.  There
+// (direct) a panic travels for real only through the frames of the repository - the real deposit
+// event handler, between the node read that panics and the guard the harness wraps that handler in -
+// and a panic raised with no repository frame above it (a plain fake handler, the head read, the
+// block-store write) ends the lifetime on the spot, as a crash does.
+func (e *Env) raise(ev, out int) {
+	e.mu.Lock()
+	e.pending = &pendingPanic{ev: ev, out: out}
+	die := e.direct && !e.guarded
+	e.mu.Unlock()
+	if die {
+		e.listenerDied()
+		runtime.Goexit()
+	}
+	panic(ScriptedPanic{})
+}
+
+// subGuard wraps the repository's handler under sygma-core's SubstrateListener: a panic that comes
+// out of the handler would go through the listener's goroutine and end the process.
+type subGuard struct {
+	env   *Env
+	inner interface {
+		HandleEvents(s, e *big.Int) error
+	}
+}
+
+func (g *subGuard) HandleEvents(s, e *big.Int) error {
+	g.env.mu.Lock()
+	g.env.guarded = true
+	g.env.mu.Unlock()
+	defer func() {
+		g.env.mu.Lock()
+		g.env.guarded = false
+		g.env.mu.Unlock()
+		if p := recover(); p != nil {
+			if !g.env.listenerDied() {
+				panic(p)
+			}
+			runtime.Goexit()
+		}
+	}()
+	return g.inner.HandleEvents(s, e)
+}
+
+// listenerDied is called by the harness' own recover around ListenToEvents: a panic escaped the
+// listener, this process is dead.  Returns false if no scripted panic is outstanding (the panic is
+// the harness' or the code's own and is passed on).
+func (e *Env) listenerDied() bool {
+	e.mu.Lock()
+	defer e.mu.Unlock()
+	if e.pending == nil {
+		return false
+	}
+	p := e.pending
+	e.pending = nil
+	e.Died = append(e.Died, p.ev)
+	if p.out >= 0 && p.out < len(e.Outs) { // the call never returned: it is not part of the history
+		e.Outs = append(e.Outs[:p.out], e.Outs[p.out+1:]...)
+	}
+	if !e.ended {
+		e.ended = true
+		e.done <- "crash"
+	}
+	return true
+}
+
+// listenerReturned: ListenToEvents returned although nobody cancelled it (somebody recovered a panic
+// and gave up): nothing will be scanned any more.
+func (e *Env) listenerReturned() {
+	e.mu.Lock()
+	defer e.mu.Unlock()
+	if !e.ended {
+		e.ended = true
+		e.done <- "stopped"
+	}
 }
 
 const (
@@ -173,6 +282,10 @@ func applies(kind int, e Ev) bool {
 
 // pop returns the next event that applies; status "" = ok, otherwise the lifetime is over.
 func (e *Env) pop(kind int) (Ev, string) {
+	if e.pending != nil { // the listener survived the scripted panic: it is calling again
+		e.Survived = append(e.Survived, e.pending.ev)
+		e.pending = nil
+	}
 	for {
 		if e.pos >= len(e.evs) {
 			return Ev{}, "exhausted"
@@ -183,6 +296,7 @@ func (e *Env) pop(kind int) (Ev, string) {
 			return Ev{}, "crash"
 		}
 		if applies(kind, ev) {
+			e.lastPop = e.pos - 1
 			return ev, ""
 		}
 	}
@@ -191,6 +305,12 @@ func (e *Env) pop(kind int) (Ev, string) {
 // popL is pop for fakes that run inside the listener goroutine: the end of the lifetime terminates
 // that goroutine here and now.
 func (e *Env) popL(kind int) Ev {
+	ev, _ := e.popLI(kind)
+	return ev
+}
+
+// popLI also returns the index of the event.
+func (e *Env) popLI(kind int) (Ev, int) {
 	e.mu.Lock()
 	if e.ended {
 		e.mu.Unlock()
@@ -203,19 +323,25 @@ func (e *Env) popL(kind int) Ev {
 		e.done <- status
 		runtime.Goexit()
 	}
+	idx := e.lastPop
 	e.mu.Unlock()
-	return ev
+	return ev, idx
 }
 
-func (e *Env) record(o Out) {
+func (e *Env) record(o Out) int {
 	e.mu.Lock()
 	e.Outs = append(e.Outs, o)
+	n := len(e.Outs) - 1
 	e.mu.Unlock()
+	return n
 }
 
 // rpc: the node is asked for its head.
 func (e *Env) rpc() (int64, bool) {
-	ev := e.popL(kRPC)
+	ev, idx := e.popLI(kRPC)
+	if ev.T != "head" && ev.Panic {
+		e.raise(idx, -1)
+	}
 	if ev.T != "head" {
 		e.mu.Lock()
 		e.rpcErr = ErrClass(ev.EC)
@@ -241,9 +367,19 @@ func (e *Env) handle(k int, s, end int64) bool {
 
 // handleEv is handle for handler 0: the caller also needs to know where and how to fail.
 func (e *Env) handleEv(k int, s, end int64) Ev {
-	ev := e.popL(kHandler)
-	e.record(Out{T: "handle", K: k, S: s, E: end, Ok: ev.Ok})
+	ev, idx := e.popLI(kHandler)
+	out := e.record(Out{T: "handle", K: k, S: s, E: end, Ok: ev.Ok})
+	ev.idx, ev.out = idx, out
 	return ev
+}
+
+// fail is how a failing handler event fails the call it was popped for: by returning the error of
+// its class or - Panic - by panicking there and then.
+func (e *Env) fail(ev Ev) error {
+	if ev.Panic {
+		e.raise(ev.idx, ev.out)
+	}
+	return ErrClass(ev.EC)
 }
 
 var errScript = errors.New("scripted failure")
@@ -264,10 +400,11 @@ func (k *kv) GetByKey(key []byte) ([]byte, error) {
 }
 
 func (k *kv) SetByKey(key []byte, value []byte) error {
-	ev := k.env.popL(kStore)
-	k.env.record(Out{T: "store", V: new(big.Int).SetBytes(value).Int64(), Ok: ev.Ok})
+	ev, idx := k.env.popLI(kStore)
+	out := k.env.record(Out{T: "store", V: new(big.Int).SetBytes(value).Int64(), Ok: ev.Ok})
 	if !ev.Ok {
-		return ErrClass(ev.EC)
+		ev.idx, ev.out = idx, out
+		return k.env.fail(ev)
 	}
 	k.data[string(key)] = append([]byte(nil), value...)
 	return nil
@@ -282,7 +419,7 @@ type rangeHandler struct {
 
 func (h *rangeHandler) HandleEvents(s, e *big.Int) error {
 	if ev := h.env.handleEv(h.k, s.Int64(), e.Int64()); !ev.Ok {
-		return ErrClass(ev.EC)
+		return h.env.fail(ev)
 	}
 	return nil
 }
@@ -294,7 +431,7 @@ type blockHandler struct {
 
 func (h *blockHandler) HandleEvents(b *big.Int) error {
 	if ev := h.env.handleEv(h.k, b.Int64(), b.Int64()); !ev.Ok {
-		return ErrClass(ev.EC)
+		return h.env.fail(ev)
 	}
 	return nil
 }
@@ -350,7 +487,7 @@ func (c *evmLogClient) FetchEventLogs(ctx context.Context, a common.Address, eve
 	}
 	ev := c.env.handleEv(0, s.Int64(), e.Int64())
 	if !ev.Ok {
-		return nil, ErrClass(ev.EC)
+		return nil, c.env.fail(ev)
 	}
 	var out []ethTypes.Log
 	dests := map[uint8]bool{}
@@ -413,7 +550,7 @@ func (c *subConn) GetBlockEvents(types.Hash) ([]*parser.Event, error) { return n
 func (c *subConn) UpdateMetatdata() error                             { return nil }
 func (c *subConn) FetchEvents(s, e *big.Int) ([]*parser.Event, error) {
 	if ev := c.env.handleEv(0, s.Int64(), e.Int64()); !ev.Ok {
-		return nil, ErrClass(ev.EC)
+		return nil, c.env.fail(ev)
 	}
 	var out []*parser.Event
 	dests := map[uint8]bool{}
@@ -497,7 +634,7 @@ type btcConn struct {
 	head      int64
 	Resources []btcconfig.Resource
 	Fee       btcutil.Address
-	blockErr  error // scripted failure of the handler's second read (GetBlockVerboseTx)
+	blockFail *Ev // scripted failure of the handler's second read (GetBlockVerboseTx)
 }
 
 var headMarker = chainhash.Hash{0xff, 0xfe}
@@ -525,12 +662,12 @@ func (c *btcConn) GetBestBlockHash() (*chainhash.Hash, error) {
 
 // GetBlockHash is the first call of the real handler's FetchEvents: the scripted handler result.
 func (c *btcConn) GetBlockHash(height int64) (*chainhash.Hash, error) {
-	c.blockErr = nil
+	c.blockFail = nil
 	if ev := c.env.handleEv(0, height, height); !ev.Ok {
 		if ev.P%2 == 0 {
-			return nil, ErrClass(ev.EC)
+			return nil, c.env.fail(ev)
 		}
-		c.blockErr = ErrClass(ev.EC) // the hash is served, the block is not
+		c.blockFail = &ev // the hash is served, the block is not
 	}
 	var h chainhash.Hash
 	big.NewInt(height).FillBytes(h[8:16])
@@ -543,9 +680,9 @@ func (c *btcConn) GetBlockVerboseTx(h *chainhash.Hash) (*btcjson.GetBlockVerbose
 		}
 		return &btcjson.GetBlockVerboseTxResult{Height: c.head}, nil
 	}
-	if err := c.blockErr; err != nil {
-		c.blockErr = nil
-		return nil, err
+	if ev := c.blockFail; ev != nil {
+		c.blockFail = nil
+		return nil, c.env.fail(*ev)
 	}
 	height := new(big.Int).SetBytes(h[8:16]).Int64()
 	blk := &btcjson.GetBlockVerboseTxResult{Height: height}
@@ -582,7 +719,18 @@ func (r *startRecorder) ListenToEvents(ctx context.Context, startBlock *big.Int)
 		o.Cur = &v
 	}
 	r.env.record(o)
+	// the harness' own recover: a panic that escapes ListenToEvents kills the process
+	defer func() {
+		if p := recover(); p != nil {
+			if !r.env.listenerDied() {
+				panic(p)
+			}
+		}
+	}()
 	r.inner.ListenToEvents(ctx, startBlock)
+	if !r.env.direct { // (the Substrate listener returns at once: its loop has its own goroutine)
+		r.env.listenerReturned()
+	}
 }
 
 type poller interface{ PollEvents(ctx context.Context) }
@@ -618,6 +766,10 @@ func newBtcChain(l listenerIface, start *big.Int, passes bool) poller {
 type Result struct {
 	Outs   []Out
 	Groups [][]Msg // every slice the real handlers sent to the message channel (arrival order)
+	// indices (into the script) of the Panic events that killed the process / that the listener
+	// survived; a Panic event in neither list was never reached or did not apply where it arrived
+	Died     []int
+	Survived []int
 }
 
 type Options struct {
@@ -660,6 +812,10 @@ func Run(cfg Cfg, w Wiring, evs []Ev, opt Options) Result {
 		}
 	}
 	res.Outs = env.Outs
+	res.Died, res.Survived = env.Died, env.Survived
+	if env.pending != nil { // the listener neither died nor called again (it returned)
+		res.Survived = append(res.Survived, env.pending.ev)
+	}
 	return res
 }
 
@@ -693,6 +849,9 @@ func lifetime(env *Env, db *kv, cfg Cfg, w Wiring, msgChan chan []*message.Messa
 		env.mu.Lock()
 		defer env.mu.Unlock()
 		ev, status := env.pop(kRPC)
+		if status == "" && ev.T != "head" && ev.Panic { // app.Run itself dies: the process starts again
+			env.Died = append(env.Died, env.lastPop)
+		}
 		return ev.H, ev.T == "head", status
 	}
 	var btcC *btcConn
@@ -711,8 +870,9 @@ func lifetime(env *Env, db *kv, cfg Cfg, w Wiring, msgChan chan []*message.Messa
 		latestBlock = mainRPC
 	case "substrate":
 		conn := &subConn{env: env}
+		env.direct = true
 		hs := []coresublistener.EventHandler{
-			sublistener.NewFungibleTransferEventHandler(logC, DomainID, subDepositHandler{}, msgChan, conn)}
+			&subGuard{env: env, inner: sublistener.NewFungibleTransferEventHandler(logC, DomainID, subDepositHandler{}, msgChan, conn)}}
 		for k := 1; k < cfg.NH; k++ {
 			hs = append(hs, &rangeHandler{env: env, k: k})
 		}
